@@ -182,8 +182,17 @@ func (st *provState) walkStores(addr ssa.Value, depth int) {
 		return
 	}
 	for _, r := range *addr.Referrers() {
-		if s, ok := r.(*ssa.Store); ok && s.Addr == addr {
-			st.walk(s.Val, depth)
+		switch s := r.(type) {
+		case *ssa.Store:
+			if s.Addr == addr {
+				st.walk(s.Val, depth)
+			}
+		case *ssa.IndexAddr:
+			// element stores into a local array / slice backing store
+			if s.X == addr && !st.seen[s] {
+				st.seen[s] = true
+				st.walkStores(s, depth)
+			}
 		}
 	}
 }
